@@ -458,15 +458,46 @@ func runC16(c *Ctx) {
 		// error edge only leaves the relay half-open for ever)
 		c.Anchor("C16.6", "completion signalled")
 		{
-			isCancel := func(in ssa.Instruction) bool {
+			// the completion signal: the cancel function of a context, close(ch) of a
+			// channel, or a func() made by sync.OnceFunc around one of those
+			var isCancel func(in ssa.Instruction) bool
+			isCancel = func(in ssa.Instruction) bool {
 				ci, ok := in.(ssa.CallInstruction)
-				if !ok || ci.Common().IsInvoke() || ci.Common().StaticCallee() != nil {
+				if !ok || ci.Common().IsInvoke() {
 					return false
 				}
 				if _, isGo := in.(*ssa.Go); isGo {
 					return false
 				}
-				return ci.Common().Value.Type().String() == "context.CancelFunc"
+				if b, isB := ci.Common().Value.(*ssa.Builtin); isB {
+					return b.Name() == "close"
+				}
+				if ci.Common().StaticCallee() != nil {
+					return false
+				}
+				if ci.Common().Value.Type().String() == "context.CancelFunc" {
+					return true
+				}
+				fv := w.resolveLoad(ci.Common().Value)
+				if x, isFV := fv.(*ssa.FreeVar); isFV {
+					if b := w.binding(x); b != nil {
+						fv = w.resolveLoad(b)
+					}
+				}
+				if oc, _ := fv.(*ssa.Call); oc != nil && stdCallee(&oc.Call) == "sync.OnceFunc" && len(oc.Call.Args) == 1 {
+					var body *ssa.Function
+					switch a := oc.Call.Args[0].(type) {
+					case *ssa.MakeClosure:
+						body = w.closureBody(a)
+					case *ssa.Function:
+						body = a
+					}
+					if body != nil && len(body.Blocks) > 0 {
+						ok, _ := mustPassBefore(body.Blocks[0], w.deepHit(isCancel), func(*ssa.BasicBlock) bool { return false })
+						return ok
+					}
+				}
+				return false
 			}
 			deep := w.deepHit(isCancel)
 			bad := ""
